@@ -7,6 +7,7 @@ Shapes(inc, comp) == {
   G("ellipse", <<28>>, <<32>>, <<24, 16>>, 120, inc, comp),
   G("cannulus", <<4>>, <<8>>, <<8, 20>>, 0, inc, comp),
   G("eannulus", <<8>>, <<12>>, <<8, 24, 4, 16>>, 180, inc, comp),
+  G("eannulus", <<40>>, <<44>>, <<4, 8, 20, 32>>, 40, inc, comp),                    \* tall and thin: the outer width is smaller than the inner height
   G("rectangle", <<16>>, <<16>>, <<12, 8>>, 40, inc, comp),
   G("polygon", <<0, 16, 8>>, <<0, 0, 12>>, <<>>, 0, inc, comp),
   G("polygon", <<4, 20, 24, 12, 0>>, <<4, 0, 16, 28, 12>>, <<>>, 0, inc, comp),
@@ -14,8 +15,8 @@ Shapes(inc, comp) == {
   G("polygon", <<0, 16, 16, 0>>, <<0, 0, 12, 12>>, <<>>, 0, inc, comp)}          \* axis-aligned box: the last edge is horizontal
 Unsupported == {[cls |-> "line"], [cls |-> "text"], [cls |-> "rannulus"], [cls |-> "compound"], [cls |-> "sky"]}
 NC == -1
-PoolQuick == UNION {Shapes(inc, comp) : inc \in {"absent", "F", "0", "T"}, comp \in {NC, 0, 3}} \cup Unsupported          \* component 0 is a given number
-PoolSmall == UNION {Shapes(inc, comp) : inc \in {"absent", "F"}, comp \in {NC, 0, 7}} \cup {[cls |-> "line"], [cls |-> "sky"]}
+PoolQuick == UNION {Shapes(inc, comp) : inc \in {"absent", "F", "0", "T"}, comp \in {NC, 0, 40000}} \cup Unsupported      \* component 0 is a given number; 40000 does not fit 16 bits
+PoolSmall == UNION {Shapes(inc, comp) : inc \in {"absent", "F"}, comp \in {NC, 0, 100234}} \cup {[cls |-> "line"], [cls |-> "sky"]}
 PoolTiny == Shapes("absent", NC) \cup Shapes("0", 5) \cup Shapes("absent", 0) \cup {[cls |-> "compound"]}
 NoDev == {}
 CodeDev == {"BangBeforeMap"}
